@@ -749,7 +749,9 @@ func (s *Store[H]) ensureInit(headers []H) {
 	}
 
 	if headPtr := s.contiguousHead.Load(); headPtr == nil {
-		head := headers[len(headers)-1]
+		// start from the same header as tail, s.t. they cannot span a gap in the given headers;
+		// advanceHead and recedeTail then extend them over whatever is contiguous
+		head := headers[0]
 		if s.contiguousHead.CompareAndSwap(headPtr, &head) {
 			s.heightSub.Init(head.Height())
 			log.Debugw("initialized head", "height", head.Height())
